@@ -169,7 +169,15 @@ func init() {
 		}
 		fk := funcKey(f)
 		n := 0
-		for _, ea := range condEdges(f) {
+		// in ReplayBlocks or in the part of it that was split off into a function of its own
+		var edges []struct {
+			E Edge
+			A Atom
+		}
+		for _, g := range append([]*ssa.Function{f}, transparentBodies(f)...) {
+			edges = append(edges, condEdges(g)...)
+		}
+		for _, ea := range edges {
 			if ea.A.Kind != "cmp" || ea.E.Succ != 0 {
 				continue
 			}
